@@ -2,7 +2,7 @@
 
 use crate::backends::Backend;
 use crate::exec;
-use crate::framework::{Ctx, Spec, VERIF_DIR};
+use crate::framework::{out_dir, Ctx, Spec};
 use crate::gen;
 use crate::model::*;
 use crate::ops::{self, keypair, CacheMode, Op, Sut};
@@ -281,7 +281,7 @@ fn compare(ctx: &mut Ctx, reference: &[Trace], other: &[Trace], refname: &str, n
 }
 
 fn scratch_dir(tag: &str) -> PathBuf {
-    PathBuf::from(VERIF_DIR).join("scratch").join(format!("c14-{}-{}", std::process::id(), tag))
+    out_dir().join("scratch").join(format!("c14-{}-{}", std::process::id(), tag))
 }
 
 pub fn writer_script(r: &mut Rng, ops: Vec<Op>) -> Vec<Step> {
